@@ -8,9 +8,10 @@ use std::collections::{BTreeMap, BTreeSet};
 
 use vx_bounded::cli;
 
-const SCHEMA: &str = "type Query { k: K l: L p: P j: J m: M i2: I2 u: U v: V w: W a1: A1 b1: B1 c1: C1 x: Int }\n\
+const SCHEMA: &str = "type Query { k: K l: L p: P j: J m: M i2: I2 u: U v: V w: W a1: A1 b1: B1 c1: C1 x: Int arg(req: Int!, opt: Int, e: E, i: I, l: [Int!]): Int }\n\
 interface A1 { a: Int }\ninterface B1 { a: Int }\ninterface C1 implements A1 & B1 { a: Int }\ntype OA implements A1 { a: Int }\ntype OB implements B1 { a: Int }\n\
 type Subscription { a: Int b: Int c(n: Int): K }\n\
+type Mutation { mu: Int }\nenum E { A B }\ninput I { r: Int! o: Int }\ndirective @once on FIELD\ndirective @many repeatable on FIELD | QUERY\ndirective @onq on QUERY\n\
 interface J { id: ID }\ninterface M implements J { id: ID mm: Int }\ninterface I2 { z: Int }\n\
 type K implements J { id: ID kk: Int }\ntype L { ll: Int }\ntype P implements M & J { id: ID mm: Int }\n\
 union U = K | L\nunion V = L\nunion W = P\n";
@@ -166,6 +167,105 @@ fn import_cases() -> Vec<Case> {
     v
 }
 
+/// one accepted and one rejected document (at least) for every validation rule the property lists; a second line behind
+/// the Verus units that prove these rules (opdoc, vardefs, dirs, args, walk_*), for rewrites that leave a unit undecided
+fn rule_cases() -> Vec<Case> {
+    let mut v = vec![];
+    let mut add = |rule: &str, doc: &str, expect_valid: bool| {
+        v.push(Case { family: "validation rules", label: format!("{rule}: {}", doc.replace('\n', " ")), doc: doc.to_string(), expect_valid, why: if expect_valid { format!("the document satisfies the rule `{rule}` and every other rule") } else { format!("the document breaks the rule `{rule}`") } })
+    };
+    // operation names
+    add("unique operation names", "query A { x } query A { x }", false);
+    add("unique operation names", "query A { x } mutation A { mu }", false);
+    add("unique operation names", "query A { x } query B { x } mutation C { mu }", true);
+    add("lone anonymous operation", "{ x } query A { x }", false);
+    add("lone anonymous operation", "query A { x } { x }", false);
+    add("lone anonymous operation", "{ x } { x }", false);
+    add("lone anonymous operation", "{ x }", true);
+    add("lone anonymous operation", "{ x }\nfragment F on K { id }", true);
+    // fields
+    add("selected fields exist", "{ nope }", false);
+    add("selected fields exist", "{ k { nope } }", false);
+    add("selected fields exist", "{ x k { id kk } }", true);
+    add("selected fields exist", "{ __typename k { __typename } u { __typename } j { __typename id } }", true);
+    add("selected fields exist", "{ u { id } }", false);
+    add("selected fields exist", "{ u { ... on K { id } ... on L { ll } } }", true);
+    add("selected fields exist", "{ u { ... on K { ll } } }", false);
+    add("selected fields exist", "{ k { ...F } }\nfragment F on K { nope }", false);
+    add("selected fields exist", "mutation { x }", false);
+    add("selected fields exist", "mutation { mu }", true);
+    add("leaf fields have no sub-selection", "{ x { y } }", false);
+    add("leaf fields have no sub-selection", "{ k { id { z } } }", false);
+    add("composite fields have a sub-selection", "{ k }", false);
+    add("composite fields have a sub-selection", "{ u }", false);
+    add("composite fields have a sub-selection", "{ k { id } j { id } }", true);
+    // arguments
+    add("arguments are defined", "{ arg(req: 1, nope: 2) }", false);
+    add("arguments are defined", "{ x(nope: 1) }", false);
+    add("arguments are defined", "{ arg(req: 1, opt: 2, e: A, i: {r: 1}, l: [1, 2]) }", true);
+    add("required arguments are supplied", "{ arg }", false);
+    add("required arguments are supplied", "{ arg(opt: 1) }", false);
+    add("required arguments are supplied", "{ arg(req: null) }", false);
+    add("required arguments are supplied", "{ arg(req: 1) }", true);
+    add("literal values match the declared type", "{ arg(req: \"s\") }", false);
+    add("literal values match the declared type", "{ arg(req: 1, e: C) }", false);
+    add("literal values match the declared type", "{ arg(req: 1, i: {o: 1}) }", false);
+    add("literal values match the declared type", "{ arg(req: 1, i: {r: 1, z: 1}) }", false);
+    add("literal values match the declared type", "{ arg(req: 1, l: [1, null]) }", false);
+    add("literal values match the declared type", "{ arg(req: 1, l: 3, e: null, i: null) }", true);
+    // variables
+    add("variables are uniquely named", "query Q($a: Int, $a: Int) { x }", false);
+    add("variables are uniquely named", "query Q($a: Int, $b: Int) { x }", true);
+    add("variables are of input types", "query Q($a: K) { x }", false);
+    add("variables are of input types", "query Q($a: [U!]) { x }", false);
+    add("variables are of input types", "query Q($a: Nope) { x }", false);
+    add("variables are of input types", "query Q($a: I, $b: [E!]!, $c: ID) { x }", true);
+    add("variables are defined where used", "{ arg(req: $nope) }", false);
+    add("variables are defined where used", "query Q($a: Int!) { arg(req: $b) }", false);
+    add("variables are defined where used", "query Q($a: Int!) { arg(req: $a) }", true);
+    add("variables are defined where used", "query Q($a: Boolean!) { x @skip(if: $a) k @include(if: $a) { id } }", true);
+    add("variables are defined where used", "query Q { x @skip(if: $a) }", false);
+    add("variables are type-compatible with their use", "query Q($a: Int) { arg(req: $a) }", false);
+    add("variables are type-compatible with their use", "query Q($a: String!) { arg(req: $a) }", false);
+    add("variables are type-compatible with their use", "query Q($a: Int!) { arg(req: 1, opt: $a) }", true);
+    add("variables are type-compatible with their use", "query Q($a: [Int!]!) { arg(req: 1, l: $a) }", true);
+    add("variables are type-compatible with their use", "query Q($a: [Int]) { arg(req: 1, l: $a) }", false);
+    add("variables are type-compatible with their use", "query Q($a: Int) { arg(req: 1, l: $a) }", false);
+    add("variables are type-compatible with their use", "query Q($a: Int!) { arg(req: 1, i: {r: $a}) }", true);
+    add("variables are type-compatible with their use", "query Q($a: String) { arg(req: 1, i: {r: 1, o: $a}) }", false);
+    add("variables are type-compatible with their use", "query Q($a: Int!) { x @skip(if: $a) }", false);
+    // fragments
+    add("fragments are uniquely named", "{ k { ...F } }\nfragment F on K { id }\nfragment F on K { kk }", false);
+    add("fragments are uniquely named", "{ k { ...F ...G } }\nfragment F on K { id }\nfragment G on K { kk }", true);
+    add("fragments target existing composite types", "{ k { ...F } }\nfragment F on Nope { id }", false);
+    add("fragments target existing composite types", "{ k { ...F } }\nfragment F on E { id }", false);
+    add("fragments target existing composite types", "{ k { ... on Nope { id } } }", false);
+    add("fragments target existing composite types", "{ k { ... on Int { id } } }", false);
+    add("fragments exist where spread", "{ k { ...Nope } }", false);
+    add("fragments exist where spread", "{ k { ...F } }\nfragment F on K { ...Nope }", false);
+    add("fragments never cycle", "{ k { ...A } }\nfragment A on K { ...B }\nfragment B on K { ...A }", false);
+    add("fragments never cycle", "{ k { ...A } }\nfragment A on K { id ... on K { ...A } }", false);
+    add("fragments never cycle", "{ k { ...A ...B } }\nfragment A on K { ...B }\nfragment B on K { id }", true);
+    // directives
+    add("directives exist", "{ x @nope }", false);
+    add("directives exist", "query @nope { x }", false);
+    add("directives exist", "{ k { ...F @nope } }\nfragment F on K { id }", false);
+    add("directives exist", "{ k { ... @nope { id } } }", false);
+    add("directives are allowed at their location", "{ x @onq }", false);
+    add("directives are allowed at their location", "query @once { x }", false);
+    add("directives are allowed at their location", "mutation @onq { mu }", false);
+    add("directives are allowed at their location", "query @onq @many { x @once @many }", true);
+    add("directives are allowed at their location", "{ k { ...F @skip(if: true) ... @include(if: false) { id } } }\nfragment F on K { id }", true);
+    add("directives are not repeated unless repeatable", "{ x @once @once }", false);
+    add("directives are not repeated unless repeatable", "{ x @skip(if: true) @skip(if: false) }", false);
+    add("directives are not repeated unless repeatable", "{ x @many @many @once }", true);
+    add("directive arguments", "{ x @skip }", false);
+    add("directive arguments", "{ x @include(if: 1) }", false);
+    add("directive arguments", "{ x @skip(if: true, unless: false) }", false);
+    add("directive arguments", "{ x @skip(if: false) @include(if: true) }", true);
+    v
+}
+
 fn main() {
     let args: Vec<String> = std::env::args().collect();
     let only: Option<usize> = args.iter().position(|a| a == "--one").and_then(|i| args.get(i + 1)).and_then(|x| x.parse().ok());
@@ -182,6 +282,7 @@ fn main() {
     }
     cases.extend(subscription_cases());
     cases.extend(import_cases());
+    cases.extend(rule_cases());
     let tmp = std::env::temp_dir().join(format!("vx-opverdict-{}", std::process::id()));
     let config = "schema: ./schema/*.graphql\ndocuments: ./ops/**/*.graphql\n".to_string();
     let results = cli::par_map(cases.len(), &tmp, |i, dir| {
